@@ -1,8 +1,9 @@
 package main
 
 import (
-	"go/types"
 	"fmt"
+	"go/token"
+	"go/types"
 	"strings"
 
 	"golang.org/x/tools/go/ssa"
@@ -15,12 +16,28 @@ func init() {
 		Run:   runC10,
 		Explain: "(a) precedence: every call on the registry.Repository value (in notation.Verify and in the listing callback) is cut by verifier != nil, repo != nil, MaxSignatureAttempts > 0 and, when the verifier implements the skipper, by skip == false; the skip exit precedes any repository call; " +
 			"(b) reference gates: parse error, empty reference, resolve error and (for digest references) digest != resolved digest are fail-closed; listing and verification use the descriptor Resolve returned; " +
-			"(c) bound: the attempt counter is a cell allocated in the outer function with constant 0, written in the callback only by one +1 store; every FetchSignatureBlob and Verifier.Verify call is cut by counter < MaxSignatureAttempts of the caller's options and preceded by that store in the same iteration; " +
+			"(c) bound: the attempt counter is a cell of the outer function (a captured local, or a field of the state object handed to the function the callback forwards to) that starts at 0 and is written in the callback only by one +1 store — or starts at the caller's limit and is written only by one -1 store; every FetchSignatureBlob and Verifier.Verify call is cut by counter < MaxSignatureAttempts of the caller's options (counting down: counter != 0) and preceded by that store in the same iteration; " +
 			"(d) early exit: from Verifier.Verify err == nil no further fetch/verify call, no loop continuation and no nil return of the callback is reachable; the outcome list stored is exactly that call's outcome; the success flag is set only there; " +
-			"the outer success exit requires the flag, a non-zero counter and returns the resolved descriptor with those outcomes; (e) a fetch error and a nil outcome leave the callback only through failing exits.",
+			"the outer success exit requires the flag (or, without a flag, a non-nil outcome list that only that store can make non-nil), a non-zero counter and returns the resolved descriptor with those outcomes; (e) a fetch error and a nil outcome leave the callback only through failing exits. " +
+			"Gates and repository calls that live in unexported helpers of the outer function are decided there and composed at the call site (cut sets followed into helpers).",
 		NotCov:  "how concrete repositories page their listing (the callback may be invoked any number of times: the rules hold per invocation and for the shared counter cell).",
 		Trusted: []string{"go/types, go/ssa", "oras-go registry.ParseReference / ValidateReferenceAsDigest", "registry.Repository implementations call the callback sequentially"},
 	})
+}
+
+// c10use is one call on the registry.Repository value on behalf of the outer function: in its own body, or in a module
+// helper it calls (chain = the call sites that lead there, outermost first).
+type c10use struct {
+	call  *ssa.Call
+	fn    *ssa.Function
+	chain []*ssa.Call
+}
+
+func (u c10use) site() *ssa.Call {
+	if len(u.chain) > 0 {
+		return u.chain[0]
+	}
+	return u.call
 }
 
 func runC10(c *Ctx) {
@@ -45,22 +62,35 @@ func runC10(c *Ctx) {
 		c.Unk("anchor/callback", "anchor: the listing callback is a function literal", w.InstrPos(list), "the callback is "+desc(list.Call.Args[2]))
 		return
 	}
-	CB := mc.Fn.(*ssa.Function)
-	c.SeenFn(CB.String())
-	cfi := w.Info(CB)
+	x := &c10frame{w: w, W: W, mc: mc, A: mc.Fn.(*ssa.Function), bind: map[*ssa.FreeVar]ssa.Value{}, resolved: map[ssa.Value]bool{}, memo: map[c10cell]c10stores{}}
 	// free variable -> binding in W
-	bind := map[string]ssa.Value{}
-	for i, fv := range CB.FreeVars {
-		bind[fv.Name()] = mc.Bindings[i]
+	for i, fv := range x.A.FreeVars {
+		x.bind[fv] = mc.Bindings[i]
 	}
+	c.SeenFn(x.A.String())
 	site := w.FnPos(W)
-	probeAgreement(c, W, "skip/probe")
+	// Module helpers the outer function delegates to. A block of the outer function moved into an unexported helper is the
+	// same code: every rule below that is about "the outer function" is decided over the outer function and these helpers,
+	// with the helpers' facts rewritten into the outer frame (parameters replaced by the arguments of the call).
+	helpers := c10Helpers(w, W)
+	helperOf := map[*ssa.Function]c10helper{}
+	for _, h := range helpers {
+		helperOf[h.fn] = h
+	}
 
 	// ---- (a) precedence ---------------------------------------------------
-	var repoCalls []*ssa.Call
+	var uses []c10use
 	for _, ci := range allCalls(W) {
 		if call, ok := ci.(*ssa.Call); ok && strings.HasPrefix(calleeName(call), "invoke:ngo/registry.Repository.") {
-			repoCalls = append(repoCalls, call)
+			uses = append(uses, c10use{call, W, nil})
+		}
+	}
+	for _, h := range helpers {
+		for _, ci := range allCalls(h.fn) {
+			if call, ok := ci.(*ssa.Call); ok && strings.HasPrefix(calleeName(call), "invoke:ngo/registry.Repository.") {
+				uses = append(uses, c10use{call, h.fn, h.chain})
+				c.SeenFn(h.fn.String())
+			}
 		}
 	}
 	verD, repoD := "", ""
@@ -72,57 +102,99 @@ func runC10(c *Ctx) {
 			repoD = paramDesc(W, p)
 		}
 	}
-	// the optional skip interface: the module interface probed on the verifier with a comma-ok assertion
+	// the optional skip interface: the module interface probed on the verifier with a comma-ok assertion (in the outer
+	// function or in a helper that is handed the verifier)
 	skipI, skipM := "ngo.?", "?"
-	for _, b := range W.Blocks {
-		for _, in := range b.Instrs {
-			if ta, ok := in.(*ssa.TypeAssert); ok && ta.CommaOk && desc(ta.X) == verD {
-				if it, ok := ta.AssertedType.Underlying().(*types.Interface); ok && it.NumMethods() > 0 {
-					skipI = abbrev(types.TypeString(ta.AssertedType, nil))
-					skipM = it.Method(0).Name()
+	probeAgreement(c, W, "skip/probe")
+	probeIn := func(fn *ssa.Function, chain []*ssa.Call) {
+		found := false
+		for _, b := range fn.Blocks {
+			for _, in := range b.Instrs {
+				if ta, ok := in.(*ssa.TypeAssert); ok && ta.CommaOk && c10ToOuter(chain, desc(ta.X)) == verD {
+					if it, ok := ta.AssertedType.Underlying().(*types.Interface); ok && it.NumMethods() > 0 {
+						skipI = abbrev(types.TypeString(ta.AssertedType, nil))
+						skipM = it.Method(0).Name()
+						found = true
+					}
 				}
 			}
 		}
+		if found && fn != W {
+			c.SeenFn(fn.String())
+			probeAgreement(c, fn, "skip/probe")
+		}
 	}
+	for _, h := range helpers {
+		probeIn(h.fn, h.chain)
+	}
+	probeIn(W, nil)
 	var optsD string
 	for _, p := range W.Params {
 		if namedOf(p.Type()) == "ngo.VerifyOptions" {
 			optsD = paramDesc(W, p)
 		}
 	}
-	for _, call := range repoCalls {
-		g := fi.GuardsOf(call)
-		name := strings.TrimPrefix(calleeName(call), "invoke:ngo/registry.Repository.")
+	selSkip := matchOf(pre("F(ok(assert("+verD+","+skipI+")))"), pre("F(call:invoke:"+skipI+"."+skipM+"(", "#0)"))
+	selSkipErr := matchOf(pre("F(ok(assert("+verD+","+skipI+")))"), pre("EQ(call:invoke:"+skipI+"."+skipM+"(", "#err,nil)"))
+	for _, u := range uses {
+		// what holds at the call: the guards of the call site in the outer function, plus (for a call made in a helper) the
+		// guards on the way from the helper's entry to the call — the helper runs only when its call site is reached
+		g := map[string]string{}
+		for l, s := range fi.GuardsOf(u.site()) {
+			g[l] = s
+		}
+		for i := range u.chain {
+			var in ssa.Instruction = u.call
+			if i+1 < len(u.chain) {
+				in = u.chain[i+1]
+			}
+			for l, s := range w.Info(staticCallee(u.chain[i])).GuardsOf(in) {
+				g[c10ToOuter(u.chain[:i+1], l)] = s
+			}
+		}
+		name := strings.TrimPrefix(calleeName(u.call), "invoke:ngo/registry.Repository.")
 		c.Evals++
 		okNil := labelHas(g, "NE("+verD+",nil)") && labelHas(g, "NE("+repoD+",nil)")
 		okMax := labelHas(g, "GT("+optsD+".MaxSignatureAttempts,const:0)") || labelHas(g, "GE("+optsD+".MaxSignatureAttempts,const:1)")
-		c.Check(okNil, "precedence/nil-checks/"+name, "effect-site gate: the repository is used only with a non-nil verifier and repository", w.InstrPos(call), "guards: "+summarizeLabels(g, 6))
-		c.Check(okMax, "precedence/positive-limit/"+name, "effect-site gate: the repository is used only with MaxSignatureAttempts > 0", w.InstrPos(call), "guards: "+summarizeLabels(g, 6))
-		cut := fi.edgesMatching(matchOf(pre("F(ok(assert("+verD+","+skipI+")))"), pre("F(call:invoke:"+skipI+"."+skipM+"(", "#0)")))
-		hit := fi.reachHit(entryState(), cut, blocksOf(call))
-		c.Check(len(cut) >= 2 && !hit, "precedence/skip-first/"+name, "effect-site gate (disjunctive): the repository is used only if the verifier is no skipper or SkipVerify answered false", w.InstrPos(call), "the repository can be touched although the policy level is skip")
+		if !okMax {
+			// the same test on the values compared: the limit read into a local first (`n := opts.MaxSignatureAttempts;
+			// if n <= 0 {…}`) is the same value as long as that local is written once
+			for _, e := range c10MustPassEdges(fi, W.Blocks[0], blocksOf(u.site())) {
+				if op, a, b, ok := c10Cmp(e.iff.Cond, e.truth); ok && x.isLimit(a) && ((op == token.GTR && c10IntConst(b, 0)) || (op == token.GEQ && c10IntConst(b, 1))) {
+					okMax = true
+				}
+			}
+		}
+		c.Check(okNil, "precedence/nil-checks/"+name, "effect-site gate: the repository is used only with a non-nil verifier and repository", w.InstrPos(u.call), "guards: "+summarizeLabels(g, 6))
+		c.Check(okMax, "precedence/positive-limit/"+name, "effect-site gate: the repository is used only with MaxSignatureAttempts > 0", w.InstrPos(u.call), "guards: "+summarizeLabels(g, 6))
+		// The skip gate is disjunctive (no skipper, or the skipper answered false): it is decided by removing those edges.
+		// When the probe lives in a helper, the helper's exits that remain without those edges (skip answered, or error)
+		// must each be rejected by the outer function before the call site (c10DeepCuts).
+		blocked, n := c10DeepBlocked(w, fi, selSkip, blocksOf(u.site()))
+		c.Check(n >= 2 && blocked, "precedence/skip-first/"+name, "effect-site gate (disjunctive): the repository is used only if the verifier is no skipper or SkipVerify answered false", w.InstrPos(u.call), "the repository can be touched although the policy level is skip")
 		// the SkipVerify error is fail-closed
 		if _, h := hasLabel(g, "EQ(call:invoke:"+skipI+"."+skipM+"(", "#err,nil)"); !h {
-			cut2 := fi.edgesMatching(matchOf(pre("F(ok(assert("+verD+","+skipI+")))"), pre("EQ(call:invoke:"+skipI+"."+skipM+"(", "#err,nil)")))
-			c.Check(!fi.reachHit(entryState(), cut2, blocksOf(call)), "precedence/skip-error/"+name, "a SkipVerify error is fail-closed", w.InstrPos(call), "the repository is used after a SkipVerify error")
+			blocked, _ := c10DeepBlocked(w, fi, selSkipErr, blocksOf(u.site()))
+			c.Check(blocked, "precedence/skip-error/"+name, "a SkipVerify error is fail-closed", w.InstrPos(u.call), "the repository is used after a SkipVerify error")
 		}
 	}
-	if len(repoCalls) < 2 {
-		c.Unk("precedence#count", "vacuity guard: Resolve and ListSignatures", site, fmt.Sprintf("%d repository calls in %s", len(repoCalls), fnName(W)))
+	if len(uses) < 2 {
+		c.Unk("precedence#count", "vacuity guard: Resolve and ListSignatures", site, fmt.Sprintf("%d repository calls on behalf of %s", len(uses), fnName(W)))
 	}
 	// the callback is used only as the ListSignatures argument
-	uses := 0
+	nUses := 0
 	for _, r := range *mc.Referrers() {
 		if _, dbg := r.(*ssa.DebugRef); !dbg {
-			uses++
+			nUses++
 		}
 	}
-	c.Check(uses == 1, "precedence/callback-only-listed", "the callback is invoked only by ListSignatures", w.InstrPos(mc), fmt.Sprintf("%d uses of the closure", uses))
+	c.Check(nUses == 1, "precedence/callback-only-listed", "the callback is invoked only by ListSignatures", w.InstrPos(mc), fmt.Sprintf("%d uses of the closure", nUses))
 
 	// ---- (b) reference gates ----------------------------------------------
 	s := w.Summarize(W, Mode{Kind: mErr})
 	c.Evals += s.States
 	var listExits []*ExitSum // success exits that went through the listing
+	selSkipped := matchOf(pre("T(call:invoke:"+skipI+"."+skipM+"(", "#0)"))
 	for _, ex := range s.Exits {
 		if _, h := hasLabel(ex.Checked, "T(call:invoke:"+skipI+"."+skipM+"(", "#0)"); h {
 			continue
@@ -130,92 +202,205 @@ func runC10(c *Ctx) {
 		if ex.Class != clSuccess {
 			continue // exits returning a computed error (errors.Join of the recorded failures) are not success exits
 		}
+		// the skip exit, when the probe lives in a helper: reachable only if SkipVerify answered true there
+		if blocked, n, _ := c10DeepExitsBlocked(w, fi, []*ExitSum{ex}, selSkipped); blocked && n > 0 {
+			continue
+		}
 		listExits = append(listExits, ex)
 	}
-	var resolve *ssa.Call
-	for _, call := range repoCalls {
-		if strings.HasSuffix(calleeName(call), ".Resolve") {
-			resolve = call
+	var resolve *c10use
+	for i := range uses {
+		if strings.HasSuffix(calleeName(uses[i].call), ".Resolve") {
+			resolve = &uses[i]
 		}
 	}
 	if resolve == nil {
 		c.Bad("reference/resolve", "the reference is resolved by the repository", site, "Repository.Resolve is not called")
 		return
 	}
-	refD := desc(resolve.Call.Args[1])
+	refD := desc(resolve.call.Call.Args[1])
 	c.requireOnExits("reference", W, listExits, []Need{
 		{Name: "parse", What: "registry.ParseReference err == nil", Subs: []string{"EQ(call:oras/registry.ParseReference(", "#err,nil)"}},
 		{Name: "non-empty", What: "the reference has a tag or digest", Subs: []string{"NE(call:oras/registry.ParseReference(", `#0.Reference,const:"")`}},
-		{Name: "resolve", What: "Repository.Resolve err == nil", Subs: []string{"EQ(" + desc(resolve) + "#err,nil)"}},
+		{Name: "resolve", What: "Repository.Resolve err == nil", Subs: []string{c10ToOuter(resolve.chain, "EQ("+desc(resolve.call)+"#err,nil)")}},
 	})
-	c.Check(strings.HasPrefix(refD, "call:oras/registry.ParseReference(") && strings.HasSuffix(refD, "#0.Reference"), "reference/resolved-value", "provenance: what is resolved is the reference part of the parsed artifact reference", w.InstrPos(resolve), "Resolve receives "+refD)
-	// the resolved descriptor cell
-	var descCell *ssa.Alloc
-	for _, b := range W.Blocks {
-		for _, in := range b.Instrs {
-			if st, ok := in.(*ssa.Store); ok {
-				if ex, ok := st.Val.(*ssa.Extract); ok && ex.Tuple == resolve && ex.Index == 0 {
-					descCell, _ = st.Addr.(*ssa.Alloc)
+	c.Check(strings.HasPrefix(refD, "call:oras/registry.ParseReference(") && strings.HasSuffix(refD, "#0.Reference"), "reference/resolved-value", "provenance: what is resolved is the reference part of the parsed artifact reference", w.InstrPos(resolve.call), "Resolve receives "+refD)
+	// The resolved descriptor: result 0 of Resolve; when Resolve is called in a helper, the result of the helper call in
+	// which every success exit of the helper hands back that descriptor (and so on outwards).
+	extracts := func(call *ssa.Call, k int) []ssa.Value {
+		var out []ssa.Value
+		for _, r := range *call.Referrers() {
+			if ex, ok := r.(*ssa.Extract); ok && ex.Index == k {
+				out = append(out, ex)
+			}
+		}
+		return out
+	}
+	for _, v := range extracts(resolve.call, 0) {
+		x.resolved[v] = true
+	}
+	for i := len(resolve.chain) - 1; i >= 0; i-- {
+		call := resolve.chain[i]
+		h := staticCallee(call)
+		hs := w.Summarize(h, Mode{Kind: mErr})
+		for k := 0; k < h.Signature.Results().Len(); k++ {
+			all := len(hs.Exits) > 0 && hs.Complete
+			for _, ex := range hs.Exits {
+				if k >= len(ex.Ret.Results) || !x.isResolved(ex.Ret.Results[k]) {
+					all = false
+				}
+			}
+			if all {
+				for _, v := range extracts(call, k) {
+					x.resolved[v] = true
 				}
 			}
 		}
 	}
-	if descCell == nil {
-		c.Bad("reference/resolved-descriptor", "the resolved descriptor is kept", w.InstrPos(resolve), "the descriptor returned by Resolve is not stored")
+	// the resolved descriptor cell of the outer function (if the descriptor is kept in a variable)
+	var descCell *ssa.Alloc
+	inW := false
+	for v := range x.resolved {
+		if in, ok := v.(ssa.Instruction); ok && in.Parent() == W {
+			inW = true
+			for _, r := range *v.Referrers() {
+				if st, ok := r.(*ssa.Store); ok && st.Val == v {
+					if al, ok := st.Addr.(*ssa.Alloc); ok {
+						descCell = al
+					}
+				}
+			}
+		}
+	}
+	if !inW {
+		c.Bad("reference/resolved-descriptor", "the resolved descriptor is kept", w.InstrPos(resolve.call), "the descriptor returned by Resolve does not reach "+fnName(W))
 		return
 	}
-	nStores := 0
-	for _, r := range *descCell.Referrers() {
-		if st, ok := r.(*ssa.Store); ok && st.Addr == descCell {
-			nStores++
-		}
+	if descCell != nil {
+		ds := x.stores(c10cell{descCell, -1})
+		c.Check(ds.ok && len(ds.sts) == 1, "reference/resolved-descriptor", "the descriptor cell is written exactly once, with Resolve's result", w.InstrPos(resolve.call), fmt.Sprintf("%d stores, all stores known=%v", len(ds.sts), ds.ok))
+	} else {
+		c.OK("reference/resolved-descriptor", "the descriptor cell is written exactly once, with Resolve's result", w.InstrPos(resolve.call))
 	}
-	cellD := desc(descCell)
-	if nStores != 1 {
-		cellD = "alloc:" + namedOf(descCell.Type()) + "<" + descCell.Comment + ">"
-	}
-	c.Check(nStores == 1, "reference/resolved-descriptor", "the descriptor cell is written exactly once, with Resolve's result", w.InstrPos(resolve), fmt.Sprintf("%d stores", nStores))
 	{
-		dg := "call:(digest.Digest).String("
-		ok, n, wit := exitsBlockedSel(fi, listExits, matchOf(pre("NE(call:(oras/registry.Reference).ValidateReferenceAsDigest(", "#err,nil)"),
-			func(l string) bool {
-				return strings.HasPrefix(l, "EQ(") && strings.Contains(l, "#0.Reference") && strings.Contains(l, dg) && strings.Contains(l, ".Digest)")
-			}))
-		c.slot(ok && n >= 2, n, "reference/digest-pinning", "a digest reference must equal the digest the repository resolved (disjunctive: not a digest reference, or equal)", w.InstrPos(resolve), "a digest reference that resolves to another digest is accepted", wit...)
+		// "equal" is decided on the values compared: the Reference part of the parsed reference against the Digest of the
+		// resolved descriptor, whichever way the two are brought to a common type (String() of the digest, or the reference
+		// converted to a digest) and whether or not the digest was first copied into a variable that is written once.
+		ok, n, wit := c10DeepExitsBlocked(w, fi, listExits, func(l string, iff *ssa.If, truth bool) bool {
+			if strings.HasPrefix(l, "NE(call:(oras/registry.Reference).ValidateReferenceAsDigest(") && strings.Contains(l, "#err,nil)") {
+				return true
+			}
+			op, a, b, ok := c10Cmp(iff.Cond, truth)
+			if !ok || op != token.EQL {
+				return false
+			}
+			return (isParsedReference(a) && x.isResolvedDigest(b)) || (isParsedReference(b) && x.isResolvedDigest(a))
+		})
+		c.slot(ok && n >= 2, n, "reference/digest-pinning", "a digest reference must equal the digest the repository resolved (disjunctive: not a digest reference, or equal)", w.InstrPos(resolve.call), "a digest reference that resolves to another digest is accepted", wit...)
 	}
 	// listing with the resolved descriptor
-	c.Check(unwrapLoad(list.Call.Args[1]) == ssa.Value(descCell), "reference/list-resolved", "provenance: signatures are listed for the descriptor Resolve returned", w.InstrPos(list), "ListSignatures receives "+desc(list.Call.Args[1]))
+	c.Check(x.isResolved(list.Call.Args[1]), "reference/list-resolved", "provenance: signatures are listed for the descriptor Resolve returned", w.InstrPos(list), "ListSignatures receives "+desc(list.Call.Args[1]))
 
 	// ---- callback -----------------------------------------------------------
-	var fetch, verify *ssa.Call
-	for _, ci := range allCalls(CB) {
-		call, ok := ci.(*ssa.Call)
-		if !ok {
-			continue
+	findSites := func(fn *ssa.Function) (fetch, verify *ssa.Call, nFetch, nVerify int) {
+		for _, ci := range allCalls(fn) {
+			switch calleeName(ci) {
+			case "invoke:ngo/registry.Repository.FetchSignatureBlob":
+				nFetch++
+				if call, ok := ci.(*ssa.Call); ok {
+					fetch = call
+				}
+			case "invoke:ngo.Verifier.Verify":
+				nVerify++
+				if call, ok := ci.(*ssa.Call); ok {
+					verify = call
+				}
+			}
 		}
-		switch calleeName(call) {
-		case "invoke:ngo/registry.Repository.FetchSignatureBlob":
-			fetch = call
-		case "invoke:ngo.Verifier.Verify":
-			verify = call
+		return
+	}
+	x.CB = x.A
+	if len(x.A.Params) > 0 {
+		x.page = x.A.Params[0]
+	}
+	fetch, verify, nFetch, nVerify := findSites(x.A)
+	if fetch == nil && verify == nil {
+		// The callback forwards the page to a module function (`func(page) error { return run.processPage(ctx, page) }`):
+		// one block, one call, the call's error returned as it is. The listing then sees exactly what that function returns,
+		// once per page, so every rule about "the callback" is a rule about that function. Its state lives in the object it
+		// is handed (fields instead of captured locals), which only the outer function and that function may touch.
+		okFwd := false
+		if len(x.A.Blocks) == 1 {
+			if ret, ok := blockTerm(x.A.Blocks[0]).(*ssa.Return); ok && len(ret.Results) == 1 {
+				if fc, ok := ret.Results[0].(*ssa.Call); ok {
+					if g := staticCallee(fc); g != nil && g.Blocks != nil && w.IsProductFn(g) && len(fc.Call.Args) == len(g.Params) {
+						x.fc, x.CB, x.page = fc, g, nil
+						nPage := 0
+						for i, a := range fc.Call.Args {
+							if len(x.A.Params) > 0 && a == ssa.Value(x.A.Params[0]) {
+								x.page = g.Params[i]
+								nPage++
+							}
+							if x.obj != nil {
+								continue
+							}
+							// the state object: a pointer to a struct allocated in the outer function
+							if fv, ok := a.(*ssa.FreeVar); ok {
+								if al, ok := x.bind[fv].(*ssa.Alloc); ok && al.Parent() == W && c10IsStructPtr(al.Type()) {
+									x.obj, x.objParam = al, g.Params[i]
+								}
+							} else if u, ok := c10IsLoad(a); ok {
+								if fv, ok := u.X.(*ssa.FreeVar); ok {
+									if p, ok := x.bind[fv].(*ssa.Alloc); ok && p.Parent() == W {
+										if ps := x.stores(c10cell{p, -1}); ps.ok && len(ps.sts) == 1 {
+											if al, ok := ps.sts[0].Val.(*ssa.Alloc); ok && al.Parent() == W && c10IsStructPtr(al.Type()) {
+												x.obj, x.objPtr, x.objParam = al, p, g.Params[i]
+											}
+										}
+									}
+								}
+							}
+						}
+						okFwd = nPage == 1
+					}
+				}
+			}
+		}
+		if !okFwd {
+			c.Bad("callback/anchors", "the callback fetches and verifies each listed signature", w.FnPos(x.A), "no fetch and no verify call in the callback, and it does not forward its page to one module function")
+			return
+		}
+		x.memo = map[c10cell]c10stores{}
+		c.SeenFn(x.CB.String())
+		fetch, verify, nFetch, nVerify = findSites(x.CB)
+		// the page worker is called by the callback only
+		nRef := 0
+		for _, fn := range w.FuncsOfPkg("") {
+			for _, b := range fn.Blocks {
+				for _, in := range b.Instrs {
+					for _, op := range in.Operands(nil) {
+						if *op == ssa.Value(x.CB) {
+							nRef++
+						}
+					}
+				}
+			}
+		}
+		c.Check(nRef == 1, "precedence/callback-only-listed", "the callback is invoked only by ListSignatures", w.FnPos(x.CB), fmt.Sprintf("%d references to %s (expected: the forwarding call in the callback only)", nRef, fnName(x.CB)))
+		if x.obj != nil {
+			okObj, why := x.objectDiscipline()
+			c.Check(okObj, "callback/state-object", "the state object of the verification is reachable only by the outer function and the function the callback forwards to, and only field by field", w.InstrPos(x.obj), why)
 		}
 	}
+	CB := x.CB
+	cfi := w.Info(CB)
 	if fetch == nil || verify == nil {
 		c.Bad("callback/anchors", "the callback fetches and verifies each listed signature", w.FnPos(CB), fmt.Sprintf("fetch=%v verify=%v", fetch != nil, verify != nil))
 		return
 	}
-	nFetch, nVerify := 0, 0
-	for _, ci := range allCalls(CB) {
-		switch calleeName(ci) {
-		case "invoke:ngo/registry.Repository.FetchSignatureBlob":
-			nFetch++
-		case "invoke:ngo.Verifier.Verify":
-			nVerify++
-		}
-	}
 	c.Check(nFetch == 1 && nVerify == 1, "callback/single-sites", "one fetch site and one verify site per iteration", w.FnPos(CB), fmt.Sprintf("%d fetch sites, %d verify sites", nFetch, nVerify))
 	// verify arguments
-	c.Check(bindOf(bind, verify.Call.Args[1]) == ssa.Value(descCell), "callback/verify-resolved-descriptor", "provenance: each signature is verified against the resolved descriptor", w.InstrPos(verify), "Verify receives "+desc(verify.Call.Args[1]))
+	c.Check(x.isResolved(verify.Call.Args[1]), "callback/verify-resolved-descriptor", "provenance: each signature is verified against the resolved descriptor", w.InstrPos(verify), "Verify receives "+desc(verify.Call.Args[1]))
 	if ex, ok := verify.Call.Args[2].(*ssa.Extract); !ok || ex.Tuple != fetch || ex.Index != 0 {
 		c.Bad("callback/verify-fetched-blob", "provenance: the envelope verified is the blob just fetched", w.InstrPos(verify), "Verify receives "+desc(verify.Call.Args[2]))
 	} else {
@@ -235,12 +420,34 @@ func runC10(c *Ctx) {
 		c.Bad("callback/loop", "the callback iterates over the listed manifests", w.FnPos(CB), "the fetch is not inside a loop")
 		return
 	}
-	c.Check(strings.Contains(desc(loop.X), "param:"+CB.Params[0].Name()) && strings.Contains(desc(fetch.Call.Args[1]), "param:"+CB.Params[0].Name()), "callback/fetch-listed-manifest", "provenance: the blob fetched belongs to the listed manifest of this iteration (listing order)", w.InstrPos(fetch), "Fetch receives "+desc(fetch.Call.Args[1]))
+	inLoop := loopBlocks(loop.Header)
+	pageD := "param:?"
+	if x.page != nil {
+		pageD = "param:" + x.page.Name()
+	}
+	c.Check(strings.Contains(desc(loop.X), pageD) && strings.Contains(desc(fetch.Call.Args[1]), pageD), "callback/fetch-listed-manifest", "provenance: the blob fetched belongs to the listed manifest of this iteration (listing order)", w.InstrPos(fetch), "Fetch receives "+desc(fetch.Call.Args[1]))
+
+	// shared(st): the cell a store of the callback writes, if it is state shared with the outer function
+	shared := func(addr ssa.Value) (c10cell, bool) {
+		cell, ok := x.cellOf(addr)
+		if !ok || cell.base.Parent() != W {
+			return c10cell{}, false
+		}
+		return cell, true
+	}
 
 	// ---- (c) bound ----------------------------------------------------------
-	var counter *ssa.Alloc
-	var counterFV *ssa.FreeVar
+	// The attempt counter is a plain int cell of the outer function that the callback changes by exactly one store, in
+	// one of two forms:
+	//   up:   starts at 0 (constant store, or the zero value of the fresh cell), the store adds 1, an attempt is made
+	//         only under counter < limit — at most `limit` attempts;
+	//   down: starts at the limit, the store subtracts 1, an attempt is made only under counter != 0 (or > 0). The cell is
+	//         `limit - attempts`: it starts positive (the positive-limit gate of (a) covers the listing), each decrement
+	//         is guarded by counter != 0, so it never goes below 0 and reaches 0 after exactly `limit` attempts.
+	// In both forms limit must be MaxSignatureAttempts of the options the outer function received.
+	var counter c10cell
 	var inc *ssa.Store
+	down := false
 	nInc := 0
 	for _, b := range CB.Blocks {
 		for _, in := range b.Instrs {
@@ -248,84 +455,89 @@ func runC10(c *Ctx) {
 			if !ok {
 				continue
 			}
-			fv, ok := st.Addr.(*ssa.FreeVar)
-			if !ok || !isPlainIntPtr(fv.Type()) {
+			cell, ok := shared(st.Addr)
+			if !ok || !isPlainIntPtr(st.Addr.Type()) {
 				continue
 			}
 			nInc++
-			if bo, ok := st.Val.(*ssa.BinOp); ok && bo.Op.String() == "+" {
-				if k, ok := bo.Y.(*ssa.Const); ok && constString(k) == "1" && unwrapLoad(bo.X) == ssa.Value(fv) {
-					inc = st
-					counterFV = fv
-					counter, _ = bind[fv.Name()].(*ssa.Alloc)
+			if bo, ok := st.Val.(*ssa.BinOp); ok && (bo.Op == token.ADD || bo.Op == token.SUB) {
+				if lc, isLoad := x.cellOfLoad(bo.X); isLoad && lc == cell && c10IntConst(bo.Y, 1) {
+					inc, counter, down = st, cell, bo.Op == token.SUB
 				}
 			}
 		}
 	}
-	rule := "bound: the attempt counter is allocated in the outer function, initialised to 0 there, and changed only by a single +1 store in the callback"
-	if counter == nil || nInc != 1 {
-		c.Bad("bound/counter", rule, w.FnPos(CB), fmt.Sprintf("%d stores to captured int cells in the callback; +1 store recognised=%v", nInc, inc != nil))
+	rule := "bound: the attempt counter is a cell of the outer function that starts at 0 and is changed only by a single +1 store in the callback (or starts at the caller's MaxSignatureAttempts and is changed only by a single -1 store)"
+	if inc == nil || nInc != 1 {
+		c.Bad("bound/counter", rule, w.FnPos(CB), fmt.Sprintf("%d stores to shared int cells in the callback; +1/-1 store recognised=%v", nInc, inc != nil))
 		return
 	}
-	okInit := false
-	nW := 0
-	for _, r := range *counter.Referrers() {
-		if st, ok := r.(*ssa.Store); ok && st.Addr == counter {
-			nW++
-			if k, ok := st.Val.(*ssa.Const); ok && constString(k) == "0" {
-				okInit = true
+	{
+		cs := x.stores(counter)
+		nW, nCB, nOther := 0, 0, 0
+		okInit := !down // the zero value of the fresh cell
+		for _, st := range cs.sts {
+			switch st.Parent() {
+			case W:
+				nW++
+				if down {
+					okInit = x.isLimit(st.Val)
+				} else {
+					okInit = c10IntConst(st.Val, 0)
+				}
+			case CB:
+				nCB++
+			default:
+				nOther++
 			}
 		}
+		c.Check(cs.ok && okInit && nW <= 1 && nCB == 1 && nOther == 0, "bound/counter", rule, w.InstrPos(counter.base),
+			fmt.Sprintf("%s: outer stores=%d initial value ok=%v callback stores=%d other stores=%d all stores known=%v", x.cellName(counter), nW, okInit, nCB, nOther, cs.ok))
 	}
-	// also no other closure writes it
-	c.Check(okInit && nW == 1 && counter.Parent() == W, "bound/counter", rule, w.InstrPos(counter), fmt.Sprintf("outer stores=%d init-zero=%v", nW, okInit))
-	cnt := "free:" + counterFV.Name()
-	// the limit operand
-	limOK := func(l string) (bool, bool) {
-		// LT(cnt, X) or GT(X, cnt): X must be <free opts>.MaxSignatureAttempts bound to W's options
-		var x string
-		switch {
-		case strings.HasPrefix(l, "LT("+cnt+","):
-			x = strings.TrimSuffix(strings.TrimPrefix(l, "LT("+cnt+","), ")")
-		case strings.HasPrefix(l, "GT(") && strings.HasSuffix(l, ","+cnt+")"):
-			x = strings.TrimSuffix(strings.TrimPrefix(l, "GT("), ","+cnt+")")
-		default:
+	// limGuard: the edge is the limit test of this iteration (the counter is read inside the loop); second result: the
+	// limit it is compared with is the caller's (down form: the comparison is with 0, the limit is the initial value)
+	limGuard := func(e c10Edge) (bool, bool) {
+		op, a, b, ok := c10Cmp(e.iff.Cond, e.truth)
+		if !ok {
 			return false, false
 		}
-		if !strings.HasSuffix(x, ".MaxSignatureAttempts") || !strings.HasPrefix(x, "free:") {
-			return true, false
+		isCnt := func(v ssa.Value) bool {
+			lc, isLoad := x.cellOfLoad(v)
+			return isLoad && lc == counter && inLoop[v.(*ssa.UnOp).Block().Index]
 		}
-		fvn := strings.TrimSuffix(strings.TrimPrefix(x, "free:"), ".MaxSignatureAttempts")
-		b := bind[fvn]
-		return true, b != nil && desc(b) == optsD
+		if down {
+			if isCnt(a) && (((op == token.NEQ || op == token.GTR) && c10IntConst(b, 0)) || (op == token.GEQ && c10IntConst(b, 1))) {
+				return true, true
+			}
+			return false, false
+		}
+		switch {
+		case op == token.LSS && isCnt(a):
+			return true, x.isLimit(b)
+		case op == token.GTR && isCnt(b):
+			return true, x.isLimit(a)
+		}
+		return false, false
 	}
 	for _, call := range []*ssa.Call{fetch, verify} {
-		g, _ := cfi.mustPassBetween([]int{loop.Body.Index}, blocksOf(call))
-		if call.Block() == loop.Body {
-			g = map[string]string{}
+		var edges []c10Edge
+		if call.Block() != loop.Body {
+			edges = c10MustPassEdges(cfi, loop.Body, blocksOf(call))
 		}
 		name := strings.TrimPrefix(calleeName(call), "invoke:")
 		okG, okL := false, false
-		for l := range g {
-			if a, b := limOK(l); a {
+		var seen []string
+		for _, e := range edges {
+			seen = append(seen, condLabel(e.iff.Cond, e.truth))
+			if a, b := limGuard(e); a {
 				okG = true
 				okL = okL || b
 			}
 		}
-		// the guard must be evaluated in this iteration before the call: also accept a guard in the body block itself
-		if !okG {
-			if iff, ok := blockTerm(loop.Body).(*ssa.If); ok && call.Block() != loop.Body {
-				for j := 0; j < 2; j++ {
-					if a, b := limOK(condLabel(iff.Cond, j == 0)); a && dominatesEdge(loop.Body, j, call.Block()) {
-						okG, okL = true, b
-					}
-				}
-			}
-		}
 		c.Evals++
-		c.Check(okG && okL, "bound/guard/"+name, "effect-site gate (per iteration): the call is reachable only through counter < MaxSignatureAttempts of the caller's options, tested in the same iteration", w.InstrPos(call),
-			fmt.Sprintf("guard present=%v limit is the caller's MaxSignatureAttempts=%v; per-iteration guards: %s", okG, okL, summarizeLabels(g, 6)))
-		// preceded by the +1 store in the same iteration
+		c.Check(okG && okL, "bound/guard/"+name, "effect-site gate (per iteration): the call is reachable only through counter < MaxSignatureAttempts of the caller's options (counting down: counter != 0), tested in the same iteration", w.InstrPos(call),
+			fmt.Sprintf("guard present=%v limit is the caller's MaxSignatureAttempts=%v; per-iteration guards: {%s}", okG, okL, strings.Join(seen, "; ")))
+		// preceded by the counting store in the same iteration
 		cut := map[edgeKey]bool{}
 		cutInto(cfi, inc.Block(), cut)
 		okInc := inc.Block() == call.Block() && instrIndex(inc) < instrIndex(call)
@@ -334,19 +546,19 @@ func runC10(c *Ctx) {
 		} else if inc.Block() == loop.Body {
 			okInc = true
 		}
-		c.Check(okInc, "bound/counted/"+name, "every attempt is counted: the +1 store precedes the call on every path of the iteration", w.InstrPos(call), "an attempt can be made without being counted")
+		c.Check(okInc, "bound/counted/"+name, "every attempt is counted: the counting store precedes the call on every path of the iteration", w.InstrPos(call), "an attempt can be made without being counted")
 	}
-	// the +1 store happens after the guard of the same iteration (the counter is compared before being incremented)
+	// the counting store happens after the guard of the same iteration (the counter is compared before being changed)
 	{
-		g, _ := cfi.mustPassBetween([]int{loop.Body.Index}, blocksOf(inc))
-		okOrder := inc.Block() != loop.Body
 		found := false
-		for l := range g {
-			if a, _ := limOK(l); a {
-				found = true
+		if inc.Block() != loop.Body {
+			for _, e := range c10MustPassEdges(cfi, loop.Body, blocksOf(inc)) {
+				if a, _ := limGuard(e); a {
+					found = true
+				}
 			}
 		}
-		c.Check(okOrder && found, "bound/guard-before-count", "the limit is tested before the attempt is counted (at most N attempts, not N-1 or N+1)", w.InstrPos(inc), "the counter is incremented before/without the limit test")
+		c.Check(found, "bound/guard-before-count", "the limit is tested before the attempt is counted (at most N attempts, not N-1 or N+1)", w.InstrPos(inc), "the counter is changed before/without the limit test")
 	}
 
 	// ---- (d) early exit -----------------------------------------------------
@@ -372,7 +584,10 @@ func runC10(c *Ctx) {
 	c.Check(!more && wit == nil, "early-exit/stop-after-success", "after the first successful verification the callback returns a non-nil sentinel: no further fetch, verification or iteration, and the listing is not continued", w.InstrPos(verify),
 		fmt.Sprintf("further processing reachable=%v, nil return reachable=%v", more, wit != nil), wit...)
 	// stores in the success region
-	var flagFV, outFV *ssa.FreeVar
+	afterVerify := func(st *ssa.Store) bool {
+		return labelHas(cfi.GuardsOf(st), okLbl) || st.Block() == succBlock
+	}
+	var flag, out *c10cell
 	okOut := false
 	for _, b := range CB.Blocks {
 		for _, in := range b.Instrs {
@@ -380,53 +595,144 @@ func runC10(c *Ctx) {
 			if !ok {
 				continue
 			}
-			fv, ok := st.Addr.(*ssa.FreeVar)
+			cell, ok := shared(st.Addr)
 			if !ok {
 				continue
 			}
-			if k, isK := st.Val.(*ssa.Const); isK && constString(k) == "true" {
-				flagFV = fv
-				gd := cfi.GuardsOf(st)
-				c.Check(labelHas(gd, okLbl) || b == succBlock, "early-exit/flag-only-on-success", "the success flag is set only after Verifier.Verify returned nil", w.InstrPos(st), "the flag can be set without a successful verification")
+			cell2 := cell
+			if bv, isK := c10BoolConst(st.Val); isK && bv {
+				flag = &cell2
+				c.Check(afterVerify(st), "early-exit/flag-only-on-success", "the success flag is set only after Verifier.Verify returned nil", w.InstrPos(st), "the flag can be set without a successful verification")
 			}
 			if strings.Contains(st.Val.Type().String(), "VerificationOutcome") && strings.HasPrefix(st.Val.Type().String(), "[]") {
-				outFV = fv
+				out = &cell2
 				els := sliceLitElems(st.Val)
 				if len(els) == 1 {
 					if ex, ok := els[0].(*ssa.Extract); ok && ex.Tuple == verify && ex.Index == 0 {
 						okOut = true
 					}
 				}
-				gd := cfi.GuardsOf(st)
-				if !(labelHas(gd, okLbl) || b == succBlock) {
+				if !afterVerify(st) {
 					okOut = false
 				}
 			}
 		}
 	}
 	c.Check(okOut, "early-exit/outcome-of-that-signature", "the outcomes handed back on success are exactly the outcome of the signature that verified", w.InstrPos(verify), "the outcome list is built otherwise")
+	// The success indicator the outer function tests after the listing:
+	//   a bool cell that is false when the listing starts (zero value, or only `false` stored by the outer function) and in
+	//   the callback is only ever set to true, after Verify returned nil; or, without such a flag,
+	//   the outcome list itself: nil when the listing starts (zero value, or only nil stored by the outer function), and
+	//   the callback stores to it only after Verify returned nil and only a slice literal, which is never nil — so
+	//   "outcomes != nil" (or len(outcomes) != 0) holds exactly if some signature verified.
+	var indicator EdgeSel
+	indWhat := ""
+	if flag != nil {
+		fs := x.stores(*flag)
+		okF := fs.ok
+		for _, st := range fs.sts {
+			bv, isK := c10BoolConst(st.Val)
+			switch {
+			case st.Parent() == CB && isK && bv: // judged above
+			case st.Parent() == W && isK && !bv:
+			default:
+				okF = false
+			}
+		}
+		c.Check(okF, "early-exit/flag-only-on-success", "the success flag is set only after Verifier.Verify returned nil", w.InstrPos(flag.base), x.cellName(*flag)+" is also written elsewhere, or its address escapes")
+		fc := *flag
+		indWhat = "the success flag"
+		indicator = func(l string, iff *ssa.If, truth bool) bool {
+			cond := iff.Cond
+			for {
+				u, ok := cond.(*ssa.UnOp)
+				if !ok || u.Op != token.NOT {
+					break
+				}
+				cond, truth = u.X, !truth
+			}
+			lc, isLoad := x.cellOfLoad(cond)
+			return truth && isLoad && lc == fc
+		}
+	} else if out != nil {
+		os := x.stores(*out)
+		okF := os.ok
+		for _, st := range os.sts {
+			switch {
+			case st.Parent() == CB:
+				sl, isSl := st.Val.(*ssa.Slice)
+				if !isSl || !afterVerify(st) {
+					okF = false
+				} else if _, isAl := sl.X.(*ssa.Alloc); !isAl {
+					okF = false
+				}
+			case st.Parent() == W && isNilConst(st.Val):
+			default:
+				okF = false
+			}
+		}
+		c.Check(okF, "early-exit/flag-only-on-success", "the success indicator (the outcome list, nil until then) is set only after Verifier.Verify returned nil, to a non-nil list", w.InstrPos(out.base), x.cellName(*out)+" can be non-nil without a successful verification, or its address escapes")
+		oc := *out
+		indWhat = "a non-nil outcome list"
+		indicator = func(l string, iff *ssa.If, truth bool) bool {
+			op, a, b, ok := c10Cmp(iff.Cond, truth)
+			if !ok {
+				return false
+			}
+			if lc, isLoad := x.cellOfLoad(a); isLoad && lc == oc && op == token.NEQ && isNilConst(b) {
+				return true
+			}
+			if call, isCall := a.(*ssa.Call); isCall && calleeName(call) == "builtin:len" {
+				if lc, isLoad := x.cellOfLoad(call.Call.Args[0]); isLoad && lc == oc {
+					return ((op == token.NEQ || op == token.GTR) && c10IntConst(b, 0)) || (op == token.GEQ && c10IntConst(b, 1))
+				}
+			}
+			return false
+		}
+	}
 	// outer success exit
-	if flagFV != nil && outFV != nil {
-		flagCell, outCell := bind[flagFV.Name()], bind[outFV.Name()]
+	if indicator == nil || out == nil {
+		c.Bad("result/success-exit", "the success exit requires the success flag and a non-zero counter and returns the resolved descriptor with the stored outcomes", site, "the callback records neither a success flag nor the outcomes of the signature that verified")
+	} else {
+		afterList := func(sel EdgeSel) EdgeSel {
+			return func(l string, iff *ssa.If, truth bool) bool {
+				return list.Block().Dominates(iff.Block()) && sel(l, iff, truth)
+			}
+		}
 		ok := len(listExits) > 0
 		detail := ""
+		if b, n, _ := exitsBlockedSel(fi, listExits, afterList(indicator)); !b || n == 0 {
+			ok, detail = false, "success without "+indWhat
+		}
+		// some signature was processed: counter != 0 (counting down: counter != limit)
+		processed := func(l string, iff *ssa.If, truth bool) bool {
+			op, a, b, okc := c10Cmp(iff.Cond, truth)
+			if !okc {
+				return false
+			}
+			isCnt := func(v ssa.Value) bool {
+				lc, isLoad := x.cellOfLoad(v)
+				return isLoad && lc == counter
+			}
+			if down {
+				return (isCnt(a) && x.isLimit(b) && (op == token.NEQ || op == token.LSS)) || (isCnt(b) && x.isLimit(a) && (op == token.NEQ || op == token.GTR))
+			}
+			return isCnt(a) && (((op == token.NEQ || op == token.GTR) && c10IntConst(b, 0)) || (op == token.GEQ && c10IntConst(b, 1)))
+		}
+		if b, n, _ := exitsBlockedSel(fi, listExits, afterList(processed)); !b || n == 0 {
+			ok, detail = false, "success with zero processed signatures"
+		}
 		for _, ex := range listExits {
-			if !labelHas(ex.Checked, "T("+descCellLoad(flagCell)+")") {
-				ok, detail = false, "success without the success flag"
-			}
-			if !labelHas(ex.Checked, "NE("+descCellLoad(counter)+",const:0)") && !labelHas(ex.Checked, "GT("+descCellLoad(counter)+",const:0)") {
-				ok, detail = false, "success with zero processed signatures"
-			}
 			r := ex.Ret
-			if unwrapLoad(r.Results[0]) != ssa.Value(descCell) || unwrapLoad(r.Results[1]) != outCell {
+			rc, isLoad := x.cellOfLoad(r.Results[1])
+			if !x.isResolved(r.Results[0]) || !isLoad || rc != *out {
 				ok, detail = false, "the success exit returns "+desc(r.Results[0])+" / "+desc(r.Results[1])
 			}
-			// listing error other than the sentinel is fail-closed (disjunctive)
 		}
 		c.Check(ok, "result/success-exit", "the success exit requires the success flag and a non-zero counter and returns the resolved descriptor with the stored outcomes", site, detail)
+		// listing error other than the sentinel is fail-closed (disjunctive)
 		okL, n, wit := exitsBlockedSel(fi, listExits, matchOf(pre("EQ("+descTailErr(list)+",nil)"), pre("T(call:errors.Is("+descTailErr(list)+",global:ngo.", "))")))
 		c.slot(okL && n >= 2, n, "result/listing-error", "a listing error other than the done sentinel fails verification", w.InstrPos(list), "success after a listing error", wit...)
-		_ = cellD
 	}
 
 	// ---- (e) failures in the callback ---------------------------------------
@@ -457,6 +763,98 @@ func runC10(c *Ctx) {
 		c.Check(!cont && wit == nil, fc.key, fc.what+" ends the callback with an error: the loop does not continue and nil is not returned", w.FnPos(CB), fmt.Sprintf("loop continues=%v nil return=%v", cont, wit != nil), wit...)
 	}
 	// a failed verification with outcome continues and records the error (not a success)
+}
+
+func c10IsStructPtr(t types.Type) bool {
+	pt, ok := t.Underlying().(*types.Pointer)
+	if !ok {
+		return false
+	}
+	_, ok = pt.Elem().Underlying().(*types.Struct)
+	return ok
+}
+
+// objectDiscipline: the state object is used only through its fields — by the outer function (directly or through the
+// one local that holds its address), by the callback only to hand it to the page worker, by the page worker only through
+// the parameter that receives it. Then the stores found by field (c10frame.stores) are all the stores there are.
+func (x *c10frame) objectDiscipline() (bool, string) {
+	onlyFields := func(v ssa.Value, what string) string {
+		refs := v.Referrers()
+		if refs == nil {
+			return ""
+		}
+		for _, r := range *refs {
+			switch r.(type) {
+			case *ssa.FieldAddr, *ssa.DebugRef:
+			default:
+				return what + " is used other than field by field (" + x.w.InstrPos(r) + ")"
+			}
+		}
+		return ""
+	}
+	// the object
+	for _, r := range *x.obj.Referrers() {
+		switch u := r.(type) {
+		case *ssa.FieldAddr, *ssa.DebugRef:
+		case *ssa.Store:
+			if !(x.objPtr != nil && u.Addr == ssa.Value(x.objPtr) && u.Val == ssa.Value(x.obj)) {
+				return false, "the object is overwritten as a whole or its address is stored (" + x.w.InstrPos(u) + ")"
+			}
+		case *ssa.MakeClosure:
+			if u != x.mc {
+				return false, "the object is captured by another closure"
+			}
+		default:
+			return false, "the address of the object escapes (" + x.w.InstrPos(r) + ")"
+		}
+	}
+	// the local that holds its address
+	if x.objPtr != nil {
+		ps := x.stores(c10cell{x.objPtr, -1})
+		if !ps.ok || len(ps.sts) != 1 {
+			return false, "the variable holding the object is reassigned or escapes"
+		}
+		for _, r := range *x.objPtr.Referrers() {
+			switch u := r.(type) {
+			case *ssa.UnOp:
+				if why := onlyFields(u, "the object"); why != "" {
+					return false, why
+				}
+			case *ssa.MakeClosure:
+				if u != x.mc {
+					return false, "the object is captured by another closure"
+				}
+			}
+		}
+	}
+	// the callback: hands it to the page worker, nothing else
+	for fv, b := range x.bind {
+		if b != ssa.Value(x.obj) && (x.objPtr == nil || b != ssa.Value(x.objPtr)) {
+			continue
+		}
+		for _, r := range *fv.Referrers() {
+			switch u := r.(type) {
+			case *ssa.DebugRef:
+			case *ssa.UnOp:
+				for _, rr := range *u.Referrers() {
+					if _, dbg := rr.(*ssa.DebugRef); !dbg && rr != ssa.Instruction(x.fc) {
+						return false, "the callback uses the object itself"
+					}
+				}
+			case *ssa.Call:
+				if u != x.fc {
+					return false, "the callback uses the object itself"
+				}
+			default:
+				return false, "the callback uses the object itself"
+			}
+		}
+	}
+	// the page worker
+	if why := onlyFields(x.objParam, "the object"); why != "" {
+		return false, why
+	}
+	return true, ""
 }
 
 func paramDesc(fn *ssa.Function, p *ssa.Parameter) string {
